@@ -452,9 +452,23 @@ def session_sequence(ctx, scratch, subsets):
         mod = importlib.import_module(name)
         fns = {n: getattr(mod, n) for n in ("count", "label", "price", "total")}
         ctx.case(spec, len({frozenset(s) for s in subsets}) > 1, ["session-sequence"])
+        state = {}
+
+        class LongLived(DefaultConfig):
+            """ONE config object for all sessions (the monkeytype_config.CONFIG style): its answers change between sessions"""
+
+            def trace_store(self):
+                return SQLiteStore.make_store(state["db"])
+
+            def code_filter(self):
+                codes_now = state["codes"]
+                return lambda c: c in codes_now
+
+        long_lived = LongLived()
         for i, accepted in enumerate(subsets):
             db = os.path.join(d, f"s{i}.sqlite3")
             codes = {fns[n].__code__ for n in accepted}
+            state.update(db=db, codes=codes)
 
             class Cfg(DefaultConfig):
                 def trace_store(self):
@@ -463,12 +477,15 @@ def session_sequence(ctx, scratch, subsets):
                 def code_filter(self):
                     return lambda c: c in codes
 
-            with monkeytype.trace(Cfg()):
+            with monkeytype.trace(long_lived if len(subsets) % 2 == 0 else Cfg()):
                 for f in fns.values():
                     f(i)
             con = sqlite3.connect(db)
-            got = {r[0] for r in con.execute("select qualname from monkeytype_call_traces where module = ?", (name,))}
-            other = con.execute("select count(*) from monkeytype_call_traces where module != ?", (name,)).fetchone()[0]
+            try:
+                got = {r[0] for r in con.execute("select qualname from monkeytype_call_traces where module = ?", (name,))}
+                other = con.execute("select count(*) from monkeytype_call_traces where module != ?", (name,)).fetchone()[0]
+            except sqlite3.OperationalError:
+                got, other = set(), 0  # the session never touched its own database file
             con.close()
             if got - set(accepted) or other:
                 return ctx.fail("C17/custom-filter-rejected-function-logged", spec,
